@@ -35,6 +35,11 @@ MUTANTS = [
     ("C19", "cuqi/samples/_samples.py", "new_samples.samples = self.samples[...,Nb::Nt]", "new_samples.samples = self.samples[...,Nb+1::Nt]"),
     ("C19", "cuqi/samples/_samples.py", "return self._compute_numpy_stats(np.var, axis=-1)", "return self._compute_numpy_stats(np.var, axis=-1, ddof=1)"),
     ("C19", "cuqi/samples/_samples.py", "datadict =  dict(zip(variables,self.samples[variable_indices,:]))", "datadict =  dict(zip(variables,self.samples[variable_indices,:][::-1]))"),
+    # C15
+    ("C15", "cuqi/problem/_problem.py", "            x_MAP = x0 + Cx@(A.T@np.linalg.solve(sysm,rhs))", "            x_MAP = Cx@(A.T@np.linalg.solve(sysm,rhs))"),
+    ("C15", "cuqi/problem/_problem.py", "            sysm = A@Cx@A.T+Ce", "            sysm = A@Cx@A.T"),
+    ("C15", "cuqi/problem/_problem.py", "        L = np.linalg.cholesky(C)\n", "        L = np.linalg.cholesky(np.linalg.inv(C))\n"),
+    ("C15", "cuqi/problem/_problem.py", "            def gradfunc(x): return -density.gradient(x)", "            def gradfunc(x): return density.gradient(x)"),
     # C16
     ("C16", "cuqi/solver/_solver.py", "                s = self.A.T @ r - self.shift*x     \n", "                s = self.A.T @ r     \n"),
     ("C16", "cuqi/solver/_solver.py", "return np.multiply(np.sign(x), np.maximum(np.abs(x)-gamma, 0))", "return np.multiply(np.sign(x), np.abs(x)-gamma)"),
